@@ -3,7 +3,7 @@
    render both.  Output of a case: model lines, then "#SPEC", then oracle lines (or one line
    "EXEMPT <reason>" when the oracle does not apply, e.g. a schema that is not well-formed). *)
 From GT Require Export Sexp Render Probe.
-From GTS Require Import SpecLin Annot WfSchema SpecValid SpecCollect SpecRules ExtOps.
+From GTS Require Import SpecLin Annot WfSchema SpecValid SpecCollect SpecRules ExtOps IntrospectOps.
 Local Open Scope string_scope.
 
 Definition render_annot (s : sdocument) (d : document) : list string :=
@@ -161,6 +161,7 @@ Definition run_case (s : sdocument) (op : string) (args : list sexp) : list stri
         end
     | _ => ["BADINPUT"]
     end
+  else if String.eqb op "introspect" then run_introspect s args
   else ["BADOP"].
 
 (* line-level entry points: the driver keeps the current schema *)
